@@ -71,14 +71,16 @@ impl DiscriminantType {
         if let Data::Enum(_) = &ast.data {
             for attr in ast.attrs.iter() {
                 if attr.path().is_ident("repr") {
-                    // #[repr(u8)], #[repr(u16)], ..., etc.
+                    // #[repr(u8)], #[repr(u16)], #[repr(C, u8)], #[repr(align(8))], ..., etc.
                     if let Meta::List(list) = &attr.meta {
                         let result =
-                            list.parse_args_with(Punctuated::<Ident, Token![,]>::parse_terminated)?;
+                            list.parse_args_with(Punctuated::<Meta, Token![,]>::parse_terminated)?;
 
-                        if let Some(value) = result.into_iter().next() {
-                            if let Some(t) = Self::parse_str(value.to_string()) {
-                                return Ok(t);
+                        for value in result {
+                            if let Some(value) = value.path().get_ident() {
+                                if let Some(t) = Self::parse_str(value.to_string()) {
+                                    return Ok(t);
+                                }
                             }
                         }
                     }
